@@ -199,18 +199,19 @@ PROPS = {
         ],
     },
     "C04": {
-        "lean_modules": ["TableauVerif.Props.C04", "TableauVerif.Props.C11"],
-        "oracles": ["c04.det", "c11.merge", "c13.dry"],
+        "lean_modules": ["TableauVerif.Props.C04", "TableauVerif.Props.C04Rewrite", "TableauVerif.Props.C11"],
+        "oracles": ["c04.det", "c11.merge", "c13.dry", "c04.rewrite"],
         "streams": [
             ("e2e.C04.determinism", 32, 600, 8),
             ("e2e.C11.merge", 200, 10000, 8),
             ("e2e.C13.dryrun", 30, 1000),
+            ("corr.xfs.rewriteSubdir", 3000, 100000),
         ],
         "assumptions": [
             "abstraction: the Go scheduler, the map hash seed and directory/glob enumeration are 'some permutation / some interleaving'; the theorems quantify over all of them; the runtime itself is trusted to realise one",
             "the inventory of map iterations and goroutine spawns is regenerated from the type-checked source on every run (C04_inventory / C04_spawns): a new site is unclassified until Props/C04 lists it",
             "repeated real runs (fresh output dirs, GOMAXPROCS 1..16, map iteration re-randomised per run, merger completion orders forced through the yield hook) are compared file by file (sha256) for .proto, JSON, text and bin",
-            "firstMatch sites (RewriteSubdir, acronyms) are order-dependent only for ambiguous configurations (two rules matching the same path): outside the statement, recorded in DESIGN.md (D10)",
+            "RewriteSubdir tries its rules in a fixed order since fix D10 (C04_rewrite_order_independent, corr.xfs.rewriteSubdir calls it 64 times per case so that the runtime enumerates the map in different orders); acronym patterns: two patterns matching at one position panic whatever the order (an ambiguous configuration, outside the statement)",
         ],
     },
     "C11": {
